@@ -56,11 +56,24 @@ OracleCheck(rec) ==
     ELSE IF ~r.ok THEN "reference-rejects-what-CPython-accepts"
     ELSE LET j == JudgeTree(r.e, rec.py) IN IF j.v \in {"OK", "SKIP"} THEN "" ELSE "reference-" \o j.v
 
+\* Attribution of a failing parser verdict to the NAMED deviations of C07_Parser: the real
+\* parser returned exactly what the unrepaired transcription predicts, the transcription with
+\* every named deviation repaired reads the string as Python does (same values / errors, or a
+\* parse error exactly where CPython has a syntax error), and at least one deviation is active.
+Explained(rec) ==
+    IF Drift(rec) # "" THEN << >>
+    ELSE LET f == ParseRepaired(rec.toks)
+             okNow == IF rec.syn THEN TRUE
+                      ELSE IF ~f.ok THEN FALSE
+                      ELSE JudgeTree(f.e, rec.py).v \in {"OK", "SKIP"}
+         IN IF okNow THEN ActiveDevs(rec.toks) ELSE << >>
+
 Report ==
     Idx <= Len(Recs) =>
       LET rec == Recs[Idx] v == Verdicts(rec) d == Drift(rec) o == OracleCheck(rec) IN
       /\ ((v.p.v = "OK" /\ v.a.v = "OK" /\ v.a2.v = "OK")
-          \/ PrintT(ToJson([id |-> rec.id, p |-> v.p, a |-> v.a, a2 |-> v.a2])))
+          \/ PrintT(ToJson([id |-> rec.id, p |-> v.p, a |-> v.a, a2 |-> v.a2,
+                            devs |-> IF v.p.v \in {"OK", "SKIP"} THEN << >> ELSE Explained(rec)])))
       /\ (d = "" \/ PrintT(ToJson([id |-> rec.id, drift |-> d])))
       /\ (o = "" \/ PrintT(ToJson([id |-> rec.id, oracle |-> o])))
 =============================================================================
